@@ -151,6 +151,7 @@ class Reporter:
         os.makedirs(d, exist_ok=True)
         unknown = known_cnt = classes = 0
         lines, summary = [], []
+        known_lines = {}
         for i, sig in enumerate(sorted(self.groups)):
             g = self.groups[sig]
             k = self._known(sig)
@@ -158,7 +159,8 @@ class Reporter:
             summary.append(entry)
             if k:
                 known_cnt += g["count"]
-                lines.append(f"KNOWN-FINDING: property={self.prop} sig={sig} cases={g['count']} {k.get('what','')}")
+                e = known_lines.setdefault(k["sig"], [0, 0, k.get("what", "")])
+                e[0] += g["count"]; e[1] += 1
             else:
                 unknown += g["count"]
                 classes += 1
@@ -169,6 +171,8 @@ class Reporter:
                           open(path, "w"), indent=1, ensure_ascii=False, default=repr)
                 lines.append(f"VIOLATION property={self.prop} replay={path}")
                 sys.stderr.write(f"violation class sig={sig} cases={g['count']} smallest={json.dumps(g['example'], ensure_ascii=False, default=repr)[:600]}\n")
+        for ksig, (cases, nsig, what) in sorted(known_lines.items()):
+            lines.append(f"KNOWN-FINDING: property={self.prop} sig={ksig} cases={cases} distinct_sigs={nsig} {what}")
         wall = time.time() - self.start
         evpath = os.path.join(OUT, "evidence", f"{self.prop}.json")
         os.makedirs(os.path.dirname(evpath), exist_ok=True)
